@@ -23,7 +23,10 @@ Comparison with the model is exact on every field (bit patterns; only `+` in a f
 Spec verdicts (evaluated on the implementation's reply):
 `bad:fasta_order_dependent`, `bad:thread_dependent`, `bad:run_to_run_nondeterministic` (the implementation
 compared with itself: permuted records, pools of 1..32 threads, rebuilds from a fresh `Parameters` = new HashMap seeds),
-`bad:not_sorted_by_mass`, `bad:duplicate_key`, `bad:proteins_not_sorted_set`, `bad:protein_not_a_source`,
+`bad:not_sorted_by_mass`, `bad:duplicate_key`, `bad:proteins_not_sorted_set`,
+`bad:target_peptide_not_in_its_protein` / `bad:decoy_not_reversal_of_its_protein` (clause protein_not_a_source: an
+entry, or one of the proteins it lists, has no source — sources being recomputed from the FASTA text of the
+request, tagged records skipped iff decoys are generated),
 `bad:source_not_listed`, `bad:decoy_not_conjunction`, `bad:semi_not_conjunction`, `bad:position_not_least`,
 `bad:missed_cleavages_not_a_source` (the naive definition `Sage.C08.specVerdict`; for databases
 too large for the quadratic clauses: sort-based duplicate test and `bad:differs_from_proven_model`, the model
@@ -184,10 +187,24 @@ def handle (op : String) (args impl : List String) : Option Reply :=
           let out := i.peps.map ofW
           if !clSorted out then "bad:not_sorted_by_mass" else
           if !clProteinsSorted out then "bad:proteins_not_sorted_set" else
-          let cs := contribs cfg targets
+          -- the sources are recomputed from the FASTA TEXT of the request by the record-level definition of
+          -- FASTA reading (`C05.specFasta`: header line + following lines, tagged records dropped iff decoys are
+          -- generated) — neither from sage's parsed proteins nor from the state-machine model `C05.parse`
+          let specTargets : List (C05.Seq × C05.Seq) :=
+            match C05.specFasta r.tag r.gen ((C05.splitNL (fastaText r.recs)).map C05.trim) with
+            | some ts => ts
+            | none => targets
+          let cs := contribs cfg specTargets
           let small := out.length * cs.length ≤ 4000000
+          -- which kind of entry has no source in the protein(s) it lists
+          let refine (v : String) : String :=
+            if v != "bad:protein_not_a_source" then v else
+            match out.find? (fun e => !((cs.any fun c => keyEq c e) &&
+                e.proteins.all fun a => cs.any fun c => keyEq c e && c.proteins.contains a)) with
+            | some e => if e.decoy then "bad:decoy_not_reversal_of_its_protein" else "bad:target_peptide_not_in_its_protein"
+            | none => v
           let v :=
-            if small then specVerdict cs out
+            if small then refine (specVerdict cs out)
             else if !noDupSorted out then "bad:duplicate_key"
             else if out.length != db.length || !((i.peps.zip (db.map toW)).all fun (a, b) => sameEntry a b) then
               "bad:differs_from_proven_model"
